@@ -17,7 +17,7 @@ RULE = ("Two kinds of history. pool: <=70 calls of AllocateBlock/GetOrAllocate/R
         "branch).  Geometries: 1-4 public addresses given as literals and /30 /31 prefixes (sometimes duplicated), "
         "0-2 exclusions, port ranges of 77..64512 ports with block sizes 4..1024 giving 0,4,8,16,64,65,125,126,128 "
         "blocks per address (one word, word boundary, two words), block size from subscriber-ratio, defaults for "
-        "every unset field, limit 1-4, paired/arbitrary pooling.  Restore arguments come from named classes: free "
+        "every unset field, limit 1-4, paired/arbitrary pooling.  About a third of the histories are 'clean' (no restores, no duplicate addresses, one live session per subscriber), so that the contract proper is compared exactly even while recorded defects are unfixed.  Restore arguments come from named classes: free "
         "aligned block, block owned by self / by another subscriber, unaligned, below/above the range, wrong end, "
         "index past the last block but inside the bitmap word, foreign address, excluded address.  Every history "
         "is interleaved with dumps (subscriber block lists, bitmap words, GetPoolStats, and the property evaluated on "
@@ -131,7 +131,8 @@ def sweep_ops(gp):
 
 
 def gen_pool_case(rng, nmax):
-    toks, gp = gen_cfg(rng)
+    clean = rng.random() < 0.35      # no restores, no duplicate addresses: exercises the contract proper
+    toks, gp = gen_cfg(rng, allow_dup=not clean)
     subs = [1, 2, 3, 4, 258, 65537, 65538][:rng.randint(2, 7)]
     ops = []
     n = rng.randint(5, nmax)
@@ -139,6 +140,8 @@ def gen_pool_case(rng, nmax):
     for i in range(n):
         r = rng.random()
         k = rng.choice(subs)
+        if clean and 0.60 <= r < 0.90:
+            r = rng.choice([0.1, 0.4, 0.5, 0.95])
         if r < 0.32:
             ops.append("a:%d" % k)
         elif r < 0.45:
@@ -157,7 +160,8 @@ def gen_pool_case(rng, nmax):
 
 
 def gen_comp_case(rng, nmax):
-    toks, gp = gen_cfg(rng)
+    clean = rng.random() < 0.35      # one live session per subscriber, no restores, no duplicate addresses
+    toks, gp = gen_cfg(rng, allow_dup=not clean)
     subs = [1, 2, 3, 4, 258, 700][:rng.randint(2, 6)]
     live = {}          # sid -> k
     nxt = [1]
@@ -169,6 +173,21 @@ def gen_comp_case(rng, nmax):
     n = rng.randint(5, nmax)
     for i in range(n):
         r = rng.random()
+        if clean:
+            if 0.52 <= r < 0.80:
+                r = rng.choice([0.1, 0.1, 0.4, 0.85, 0.95])
+            if r < 0.34:
+                free = [k for k in subs if k not in live.values()]
+                if not free:
+                    r = 0.4
+                else:
+                    sid, k = new_sid(), rng.choice(free)
+                    ops.append("A:%d:%d:%d" % (sid, k, 0 if rng.random() < 0.2 else 1))
+                    if ops[-1].endswith(":1"):
+                        live[sid] = k
+                    continue
+            if r < 0.52 and not live:
+                r = 0.85
         if r < 0.34:
             k = rng.choice(subs)
             if live and rng.random() < 0.15:
@@ -214,8 +233,8 @@ def gen_comp_case(rng, nmax):
 
 
 def gen_cases(rng, tier, budget):
-    npool = (budget or 450) if tier == "quick" else (budget or 6000)
-    ncomp = (budget or 350) if tier == "quick" else (budget or 5000)
+    npool = (budget or 450) if tier == "quick" else (budget or 5000)
+    ncomp = (budget or 350) if tier == "quick" else (budget or 4000)
     cases = []
     # fill-and-drain histories: every block of a small pool is handed out, released and handed out again
     for bs, mx, pooling, outs in [(16, 3, 2, "%d,%d" % (BASE + 1, BASE + 2)), (32, 2, 1, "%d/31" % BASE), (64, 1, 0, str(BASE + 3)),
